@@ -54,12 +54,21 @@ def augment_exception_message_and_reraise(exception, message):
   ExceptionProxy.__name__ = type(exception).__name__
   ExceptionProxy.__qualname__ = type(exception).__qualname__
 
-  try:
-    # Bypass `__init__`, but hand the constructor arguments to `__new__`, which
-    # some exception classes (e.g. exception groups) require.
-    proxy = ExceptionProxy.__new__(ExceptionProxy, *exception.args)
-  except TypeError:
-    # The class cannot be instantiated from `args`; the message can't be
+  # Bypass `__init__`, but hand the constructor arguments to `__new__`, which
+  # some exception classes (e.g. exception groups) require. A `__new__` defined
+  # by a user class may not accept `args` (which `__init__` is free to replace);
+  # the proxy reads all its data from the original exception, so the `__new__`
+  # of the nearest builtin base class serves as well.
+  proxy = None
+  for base in (ExceptionProxy,) + tuple(
+      base for base in type(exception).__mro__ if base.__module__ == 'builtins'):
+    try:
+      proxy = base.__new__(ExceptionProxy, *exception.args)
+      break
+    except TypeError:
+      continue
+  if proxy is None:
+    # The class cannot be instantiated from `args` at all; the message can't be
     # augmented, but the exception itself must not be replaced by this failure.
     raise exception  # pylint: disable=raise-missing-from
   raise proxy.with_traceback(exception.__traceback__)
